@@ -33,6 +33,15 @@ Theorem C17_learn_keeps_best :
     (forall i, (i < r_best res)%nat -> (acc i < acc (r_best res))%Z).
 Proof. exact (@learn_keeps_best). Qed.
 
+(* ... and that snapshot was fitted on the training set exactly as it stood when iteration
+   [r_best] started ([state_at], Proofs/Learn.v, replays the exchanges of the earlier iterations). *)
+Theorem C17_learn_snapshot :
+  forall (R : Type) (its : list iter_in) (n_iterations : nat) (draws : list nat) (st : lstate R),
+    let res := learn its n_iterations draws st in
+    let sb := state_at its (r_best res) draws st in
+    r_snap res = (l_Xt sb, l_Yt sb).
+Proof. exact (@learn_snapshot). Qed.
+
 (* After a prediction pass over [ds] on a model whose predecessor map is a forest (every node
    reaches a root in fewer than n steps: C01) and whose flags were all clear, training sample t
    is flagged relevant iff it lies on the predecessor path from the conqueror of some predicted
